@@ -135,6 +135,9 @@ pub struct Oracles {
     /// C14: keep the whole write log (payloads, flush epochs), flush points and untrack events
     #[serde(default)]
     pub crash_log: bool,
+    /// C16: every short name on the volume is legal (all entries were made by the library)
+    #[serde(default)]
+    pub alias_rules: bool,
 }
 
 #[derive(Clone, Debug, Serialize, Deserialize)]
